@@ -91,13 +91,18 @@ func (w *c11World) line(c *Ctx, in string) {
 	parts := strings.Fields(in)
 	switch parts[0] {
 	case "reset":
-		var ls []string
-		for _, l := range w.ts.Listeners {
-			ls = append(ls, l.Name)
-		}
-		for _, l := range ls {
-			w.ts.ListenerRemove(l)
-		}
+		// the server may still be working on the last operator message: touch its tables only when it is quiet
+		w.quiesce()
+		guard(func() string {
+			var ls []string
+			for _, l := range w.ts.Listeners {
+				ls = append(ls, l.Name)
+			}
+			for _, l := range ls {
+				w.ts.ListenerRemove(l)
+			}
+			return ""
+		})
 		for _, a := range w.ts.Agents.Agents {
 			if id, err := strconv.ParseUint(a.NameID, 16, 32); err == nil {
 				w.ts.DB.AgentRemove(int(id))
